@@ -268,6 +268,19 @@ def generic(built, an):
             out.append(mk('G1-no-trace', built,
                           f'child {slot} is started at {fmt(s.pos)}: the position left by a failed '
                           f'attempt is reused', an, {'at': f'start of {slot}'}))
+    # the status register holds True or False and nothing else: the driver tells a finished rule's
+    # (status, result, position) from a request (CALL, function, position) by the first slot alone
+    for n in ast.walk(built.tree):
+        if isinstance(n, ast.Assign) and any(isinstance(t, ast.Name) and t.id == '_status' for t in n.targets):
+            v = n.value
+            boolean = (isinstance(v, ast.Constant) and isinstance(v.value, bool)) \
+                or (isinstance(v, ast.UnaryOp) and isinstance(v.op, ast.Not)) or isinstance(v, ast.Compare) \
+                or (isinstance(v, ast.Call) and isinstance(v.func, ast.Name) and v.func.id == 'bool')
+            if not boolean:
+                out.append(mk('G3-protocol', built,
+                              f'`_status = {ast.unparse(v)[:60]}` stores a value that need not be True or False in the '
+                              f'status register: a rule ending with status 3 (the CALL tag) is taken for a request by '
+                              f'the driver'))
     for s in an.exits:
         if s.st is None:
             out.append(mk('G3-protocol', built,
